@@ -669,6 +669,7 @@ package template
 //@   ensures registered: old(t.nameSpace).set[name] == r && old(t.nameSpace).set == old(t.nameSpace.set)
 //@   ensures replaced: old(haskeym(t.nameSpace.set, name)) ==> isnil(old(t.nameSpace.set[name]).escapeErr) && isnil(old(t.nameSpace.set[name]).Tree) && fresh(old(t.nameSpace.set[name]).nameSpace)
 //@   ensures others: onlyobjects(old(t.nameSpace.set[name]), old(t.nameSpace.set), r)
+//@   demonstrates C07-new-after-execution-resets-member ungated: old(t.nameSpace.escaped) && old(haskeym(t.nameSpace.set, name)) ==> old(t.nameSpace).set[name] == r && isnil(r.Tree) && isnil(old(t.nameSpace.set[name]).Tree)
 
 //@ func (t *Template) New(name string) (r *Template)
 //@   serves C07 C08
